@@ -1,5 +1,7 @@
 (* C12/Proofs_upload.v — Cloader.upload_buffer: shape of the frames it sends and what they do to the target *)
-From CF Require Import Common.Bytes C12.Model C12.Lists.
+From CF Require Import Common.Bytes.
+From CF Require Import C12.Model.
+From CF Require Import C12.Lists.
 From Coq Require Import ZifyBool.
 Open Scope Z_scope.
 
